@@ -383,6 +383,23 @@ where
 // ===========================================================================
 // ===========================================================================
 
+#[cfg(feature = "verif-hooks")]
+#[allow(missing_docs)]
+impl<const N: usize> ArrayBuf<N> {
+    /// Verification hook (feature `verif-hooks`): build a buffer from raw backing bytes and a length.
+    pub fn verif_from_raw(buffer: [u8; N], num_elements: usize) -> Self {
+        ArrayBuf {
+            buffer,
+            num_elements,
+        }
+    }
+
+    /// Verification hook (feature `verif-hooks`): raw backing bytes and logical length.
+    pub fn verif_raw(&self) -> (&[u8; N], usize) {
+        (&self.buffer, self.num_elements)
+    }
+}
+
 #[cfg(test)]
 mod test_arraybuf {
     use crate::util::{Buffer, OutOfMemory};
